@@ -415,6 +415,32 @@ theorem Body.drain_not_none : ∀ (fuel : Nat) (b : Body) (bs : Bytes) (fin : En
       | err => simp
       | pending => exact absurd rfl hr
 
+/-- on a closed stream the empty-buffer read never blocks. -/
+theorem zeroReadEffect_not_none (b : Body) (bs : Bytes) (fin : EndState) (hf : fin ≠ .open) :
+    zeroReadEffect b bs fin ≠ none := by
+  have key : ∀ b', (match Body.drain (bs.length + 2) b' bs fin with
+      | some bs' => some (Body.done, bs')
+      | none => none) ≠ none := by
+    intro b'
+    have hd := Body.drain_not_none (bs.length + 2) b' bs fin hf
+    split
+    · simp
+    · rename_i hn; exact absurd hn hd
+  cases b with
+  | limited n => exact key _
+  | chunked ic => exact key _
+  | done => simp [zeroReadEffect]
+  | failed => simp [zeroReadEffect]
+  | cursor d => simp [zeroReadEffect]
+  | raw => simp [zeroReadEffect]
+
+theorem handleZR_not_none (a : Action) (b : Body) (bs : Bytes) (fin : EndState) (hf : fin ≠ .open) :
+    handleZR a b bs fin ≠ none := by
+  unfold handleZR
+  split
+  · exact zeroReadEffect_not_none b bs fin hf
+  · simp
+
 theorem handle_not_blocked (s : St) (h : Head) (fr : Framing) (last : Bool) (a : Action)
     (body : Body) (bs : Bytes) (fin : EndState) (hf : fin ≠ .open) :
     (handle s h fr last a body bs fin).2.2 = false := by
@@ -422,8 +448,11 @@ theorem handle_not_blocked (s : St) (h : Head) (fr : Framing) (last : Bool) (a :
   have hrd : (handleRead a body bs fin).2.1 ≠ some .pending := by
     unfold handleRead
     split
-    · exact Body.readUpTo_not_pending _ _ _ _ _ _ hf
-    · simp
+    · unfold handleRead0
+      split
+      · exact Body.readUpTo_not_pending _ _ _ _ _ _ hf
+      · simp
+    · rename_i hn; exact absurd hn (handleZR_not_none a body bs fin hf)
   have hre : readEndOf (handleRead a body bs fin).2.1 ≠ .pending := by
     generalize (handleRead a body bs fin).2.1 = o at hrd
     rcases o with _ | (_ | _ | _ | _) <;> simp_all [readEndOf]
